@@ -362,3 +362,61 @@ func H_C20_fault(i, K int) {
 	check(vsame(w2.b, w.b), "C20.deterministic-after-fault")
 	vdigest(fw.b)
 }
+
+// H_C20_tight(outer, _): tight lists whose items hold more than a paragraph. The outer
+// list ('-' items for outer 0, '1.' '2.' for outer 1, the same inside a block quote for
+// 2 and 3) is tight and has two items; the first is a paragraph directly followed
+// (no blank line anywhere) by a second block chosen by the solver: a nested tight
+// bullet list of one or two items, a nested ordered list, a block quote, a fenced code
+// block, a fenced code block followed by a paragraph, an ATX heading, a thematic break.
+// Such documents are canonical style (Appendix D rule 3 and its generalisation to the
+// blocks that may interrupt a paragraph); formatting must keep every list tight.
+func H_C20_tight(outer, _ int) {
+	a, b := nondetByte(), nondetByte()
+	assume(isL(a))
+	assume(isL(b))
+	m1, m2, ind := "- ", "- ", "  "
+	if outer%2 == 1 {
+		m1, m2, ind = "1. ", "2. ", "   "
+	}
+	var lines []string
+	lines = append(lines, m1+string([]byte{a}))
+	switch vconcrete(nondetInt(0, 7)) {
+	case 0:
+		lines = append(lines, ind+"- x")
+	case 1:
+		lines = append(lines, ind+"- x", ind+"- y")
+	case 2:
+		lines = append(lines, ind+"1. x", ind+"2. y")
+	case 3:
+		lines = append(lines, ind+"> x")
+	case 4:
+		lines = append(lines, ind+"```", ind+"x", ind+"```")
+	case 5:
+		lines = append(lines, ind+"```", ind+"x", ind+"```", ind+"y")
+	case 6:
+		lines = append(lines, ind+"# x")
+	default:
+		lines = append(lines, ind+"***")
+	}
+	lines = append(lines, m2+string([]byte{b}))
+	var d []byte
+	for _, l := range lines {
+		if outer >= 2 {
+			d = append(d, "> "...)
+		}
+		d = append(d, l...)
+		d = append(d, '\n')
+	}
+	f := formatDoc(cloneBytes(d))
+	h1 := normHTML(renderHTML(cloneBytes(d)))
+	h2 := normHTML(renderHTML(cloneBytes(f)))
+	if !vsame(h1, h2) {
+		vnote("doc=" + string(d))
+		vnote("formatted=" + string(f))
+	}
+	check(vsame(h2, h1), "C20.meaning-preserved")
+	f2 := formatDoc(cloneBytes(f))
+	check(vsame(f2, f), "C20.idempotent")
+	vdigest(f)
+}
